@@ -171,6 +171,15 @@ impl<K: ArrowNativeType + Ord, V: OffsetSizeTrait> DictionaryBuffer<K, V> {
                 } else {
                     values
                 };
+                // the type of the dictionary page follows the Parquet schema (which may be
+                // damaged, or lack the UTF8 annotation the Arrow type asks for)
+                if values.data_type() != value_type.as_ref() {
+                    return Err(general_err!(
+                        "dictionary values of type {} cannot be read as {}",
+                        values.data_type(),
+                        value_type
+                    ));
+                }
 
                 let builder = ArrayDataBuilder::new(data_type.clone())
                     .len(keys.len())
